@@ -12,6 +12,18 @@ COMMON_ASSUME = [
 ]
 
 REGISTRY = {
+    "C14": {
+        "level": "exploration",
+        "technique": "mock nodes as source of truth for (statement id, result-metadata id, column layout) + history checker over node frame logs and caller-decoded rows",
+        "rule": "cases = histories of 4..18 steps over {execute, paged execute, CachingSession execute, batch, evict on one node, evict everywhere, schema change (new column layout + new result-metadata id), id change on one node, barrier} run by concurrent callers against 3 nodes, with/without SCYLLA_USE_METADATA_ID and with/without use_cached_result_metadata (schema changes are excluded when metadata is skipped without the extension: the protocol gives the client no signal there); "
+                "cell values are a function of the column NAME, so rows decoded with a stale layout are visible; non-trivial = history of more than 2 steps; distinct = distinct (steps, extension, skip-metadata)",
+        "assumptions": COMMON_ASSUME + ["under never-ending eviction only the faithfulness of repeats is checked, termination is not part of the statement"],
+        "quick": [{"variant": "dbg"}],
+        "thorough": [{"variant": "dbg", "timeout_t": 5400}, {"variant": "asan", "scale": 0.05, "optional": True}],
+        "level_text": "For every history: callers get the normal result across evictions; the request repeated after UNPREPARED equals the original in id, values and parameters; a changed id on re-preparation surfaces as an error and no EXECUTE ever carries another id; every row the caller decoded equals what the node encoded for that column name under the layout it answered with; with the extension, an execution presents a result-metadata id at least as new as the one announced to any execution that had already returned.",
+        "level_note": "trusted: mock cluster and wire codec; retries are disabled (Fallthrough) so that re-preparation is the only repeat mechanism observed",
+        "design_ref": "DESIGN.md §4 C14",
+    },
     "C15": {
         "level": "exploration",
         "technique": "reference-model monitor in lockstep with the real ClusterState tablet map (hook), exhaustive (state, insert) transitions over a small token universe, random histories with maintenance, payload-decoder fuzz",
